@@ -5,8 +5,10 @@ reference (specs/rfc6902.py applied to a deep copy), compared as JSON values."""
 from __future__ import annotations
 
 import copy
+import json
 import random
 
+import specs.rfc6901 as pspec
 import specs.rfc6902 as jspec
 from jsonpath import JSONPatch
 from jsonpath import JSONPointer
@@ -53,13 +55,33 @@ def paths_for(doc):
     return res
 
 
-def ref_apply(ops, doc):
-    """RFC 6902 reference: ('ok', document) | ('error', kind)."""
+class SpecPointer:
+    """An RFC 6901 pointer for the reference: parsed and evaluated by the spec functions only
+    (specs/rfc6901.py), nothing of the library's pointer code."""
+
+    def __init__(self, text):
+        if text and not text.startswith("/"):
+            raise JSONPointerError("pointer must start with a slash or be empty")
+        toks = [t.replace("~1", "/").replace("~0", "~") for t in text.split("/")[1:]]
+        self.parts = tuple(pspec.index_token(t, -(2**53) + 1, 2**53 - 1) for t in toks)
+
+    def resolve_parent(self, data):
+        return pspec.resolve_parent(self.parts, data)
+
+    def is_relative_to(self, other):
+        return pspec.is_relative_to(self.parts, other.parts)
+
+
+def ref_apply(ops, doc, python_eq_in_test=False):
+    """RFC 6902 reference: ('ok', document) | ('error', kind).
+
+    python_eq_in_test=True is the reference *with the recorded finding C05-test-bool-number-equality
+    built in* (test compares with Python ==); it is only used to classify a failure as that finding."""
     d = copy.deepcopy(doc)
     for op in ops:
         try:
             name = op["op"]
-            path = JSONPointer(op["path"], unicode_escape=False)
+            path = SpecPointer(op["path"])
             if name == "add":
                 d = jspec.op_add(path, copy.deepcopy(op["value"]), d)
             elif name == "remove":
@@ -67,11 +89,16 @@ def ref_apply(ops, doc):
             elif name == "replace":
                 d = jspec.op_replace(path, copy.deepcopy(op["value"]), d)
             elif name == "test":
-                d = jspec.op_test(path, op["value"], d)
+                if python_eq_in_test:
+                    _, obj = path.resolve_parent(d)
+                    if not obj == op["value"]:
+                        raise JSONPatchTestFailure
+                else:
+                    d = jspec.op_test(path, op["value"], d)
             elif name == "move":
-                d = jspec.op_move(JSONPointer(op["from"], unicode_escape=False), path, d)
+                d = jspec.op_move(SpecPointer(op["from"]), path, d)
             elif name == "copy":
-                d = jspec.op_copy(JSONPointer(op["from"], unicode_escape=False), path, d)
+                d = jspec.op_copy(SpecPointer(op["from"]), path, d)
         except JSONPatchTestFailure:
             return ("error", "test")
         except (JSONPatchError, JSONPointerError):
@@ -82,7 +109,8 @@ def ref_apply(ops, doc):
 def real_apply(ops, doc):
     d = copy.deepcopy(doc)
     try:
-        r = JSONPatch(copy.deepcopy(ops), unicode_escape=False).apply(d)
+        # every operation gets its own value object, as in a patch read from JSON text
+        r = JSONPatch(json.loads(json.dumps(ops)), unicode_escape=False).apply(d)
         return ("ok", r)
     except JSONPatchTestFailure:
         return ("error", "test")
@@ -101,8 +129,10 @@ def negative_token(ops):
 def classify(ops, doc, got, want):
     if negative_token(ops):
         return "C05-negative-array-index"
-    if any(op["op"] == "test" for op in ops) and got[0] == "ok" and want == ("error", "test"):
-        return "C05-test-bool-number-equality"
+    if any(op["op"] == "test" for op in ops) and want == ("error", "test"):
+        alt = ref_apply(ops, doc, python_eq_in_test=True)
+        if alt[0] == got[0] and (U._same(alt[1], got[1]) if got[0] == "ok" else alt[1] == got[1]):
+            return "C05-test-bool-number-equality"
     return None
 
 
